@@ -588,19 +588,99 @@ def run_case(ctx, i):
     ctx.sample(dict(index=i, steps=nsteps, first_ops=s.log[:15]), 3)
 
 
+def run_big_map(ctx, i, j):
+    """A table and a packet grown to hundreds of entries (their hash tables double several times on the way): after
+    every doubling-sized step every key entered so far is found, enumerated once, replaceable without changing the
+    count and removable; a clone answers the same."""
+    L = ctx.L
+    rng = ctx.rng('C19-big', i)
+    n = (160, 200, 330, 400, 700, 1300)[j % 6]
+    case = dict(index=i, kind='big-map', entries=n)
+    scope = LedgerScope(L).__enter__()
+    stem = rng.choice(['k', 'Key_', '\u00e9l\u00e9ment', 'x' * 20, '\U00010400_'])
+    v1 = L.make_value(('char', 'first', True))
+    v2 = L.make_value(('numb', '2.5(1)', False))
+    objs = []
+    try:
+        for kind in ('table', 'packet'):
+            keys = [('%s%d' % (stem, k)) if kind == 'table' else ('_%s%d' % (stem, k)) for k in range(n)]
+            if kind == 'table':
+                m = L.value_create(KIND_TABLE)[1]
+                objs.append(('value', m))
+                put = lambda k, v: L.call('cif_value_set_item_by_key', m, U(k), v)
+                get = lambda k: L.table_get(m, k)
+                names = lambda: L.table_keys(m)[1]
+                rem = lambda k: L.call('cif_value_remove_item_by_key', m, U(k), None)
+            else:
+                m = L.packet_create([])[1]
+                objs.append(('packet', m))
+                put = lambda k, v: L.call('cif_packet_set_item', m, U(k), v)
+                get = lambda k: L.packet_get(m, k)
+                names = lambda: L.packet_names(m)[1]
+                rem = lambda k: L.call('cif_packet_remove_item', m, U(k), None)
+            norm = (lambda k: k) if kind == 'table' else N.norm
+            marks = set([1, 2, n] + [x for x in (31, 32, 33, 63, 64, 65, 100, 130, 159, 160, 161, 256, 320, 321, 512, 640, 641, 1024, 1280, 1281) if x <= n])
+            for c, k in enumerate(keys, 1):
+                rc = put(k, v1)
+                if rc != CIF_OK:
+                    raise Mismatch('bigmap:%s:set:%d' % (kind, rc), 'entry %d of %d: set -> %d' % (c, n, rc))
+                if c in marks:
+                    lost = [kk for kk in keys[:c] if get(kk)[0] != CIF_OK]
+                    if lost:
+                        raise Mismatch('bigmap:%s:lookup-missed' % kind, 'with %d entries, %d key(s) that were entered are not found, first %r' % (c, len(lost), lost[0]))
+                    got = sorted(norm(x) for x in names())
+                    if got != sorted(norm(kk) for kk in keys[:c]):
+                        raise Mismatch('bigmap:%s:enumeration' % kind, 'with %d entries the keys enumerate as %d names (%d distinct)' % (c, len(got), len(set(got))))
+            if kind == 'table':
+                rc, cl = L.value_clone(m)
+                objs.append(('value', cl))
+                lost = [kk for kk in keys if L.table_get(cl, kk)[0] != CIF_OK]
+                if rc != CIF_OK or lost or len(L.table_keys(cl)[1]) != n:
+                    raise Mismatch('bigmap:table:clone', 'clone of a %d-entry table: rc %d, %d keys not found, %d enumerated' % (n, rc, len(lost), len(L.table_keys(cl)[1])))
+            for k in keys:
+                if put(k, v2) != CIF_OK:
+                    raise Mismatch('bigmap:%s:replace' % kind, 'replacing %r failed' % k)
+            if len(names()) != n:
+                raise Mismatch('bigmap:%s:count-after-replace' % kind, 'after replacing each of the %d entries the map enumerates %d' % (n, len(names())))
+            for k in keys[::2]:
+                rc = rem(k)
+                if rc != CIF_OK:
+                    raise Mismatch('bigmap:%s:remove:%d' % (kind, rc), 'removing %r -> %d' % (k, rc))
+            left = sorted(norm(x) for x in names())
+            if left != sorted(norm(kk) for kk in keys[1::2]):
+                raise Mismatch('bigmap:%s:after-remove' % kind, 'after removing every other entry %d remain, expected %d' % (len(left), len(keys[1::2])))
+            ctx.count('big_map_entries', n)
+        ctx.count('big_maps_completed')
+    except Mismatch as mm:
+        ctx.violation(mm.key, mm.detail, case)
+    finally:
+        for kind, h in objs:
+            (L.value_free if kind == 'value' else L.packet_free)(h)
+        L.value_free(v1)
+        L.value_free(v2)
+    for suffix, detail in scope.finish():
+        ctx.violation(suffix, detail, case)
+    ctx.drain_events(case)
+
+
 def worker(ctx):
     total = ctx.params['histories']
+    nbig = ctx.params.get('big_maps', 0)
     if ctx.params.get('_single') is not None:
         ctx.single = ctx.params['_single']
-    for i in ctx.cases(total):
+    for i in ctx.cases(total + nbig):
         ctx.begin(i)
+        if i >= total:
+            ctx.count('big_maps')
+            run_big_map(ctx, i, i - total)
+            continue
         ctx.count('histories')
         run_case(ctx, i)
 
 
 def run(env):
     n = 6000 if env.quick else 150000
-    res = env.run_pool(MODULE, dict(histories=n), nshards=16)
+    res = env.run_pool(MODULE, dict(histories=n, big_maps=24 if env.quick else 240), nshards=16)
     inconclusive = list(res.inconclusive)
     if res.count('histories') < n and not res.violations:
         inconclusive.append('only %d of %d histories ran' % (res.count('histories'), n))
@@ -613,6 +693,7 @@ def run(env):
                  'step against the functional model; histories are distinct by construction (per-index PRNG); '
                  'counted as non-trivial when the history ran to its end with every step compared',
             samples=res.samples, steps=res.count('steps'), clones=res.count('clones'),
+            maps_grown_to_hundreds_of_entries=res.count('big_maps_completed'), entries_in_those=res.count('big_map_entries'),
             alias_cases=res.count('alias_cases'), removed_members_owned_by_caller=res.count('removed_owned'),
             distinct_operation_result_pairs=sorted(res.sets.get('op_rc', ())),
             max_list_length=res.count('max_list_len'), crashes=res.crashes),
